@@ -14,7 +14,7 @@ def run(tier):
                       "PaintGlyph with collecting painter) and checks balance, named errors and the work bound on it; "
                       "each graph is built into a real COLR v1 table and painted with a recording ColorPainter; the "
                       "observed result class, callback stream and visit count (hook H5) are judged by PaintTrace. "
-                      "distinct_nontrivial = successful paints with more than one callback.")
+                      "distinct_nontrivial = successful paints with more than one callback. The paint graphs of all COLRv1 glyphs of the six colour fonts of the corpus are extracted from the tables and every glyph painted by skrifa is judged by the same trace specification.")
     ck.assumptions = ["paint kinds are represented by one member each (solid for all fills, translate for all transforms)",
                       "cycles can only pass through PaintColrLayers / PaintColrGlyph (other children are forward offsets)",
                       "work bound: a node occurrence may be traversed once per enclosing PaintGlyph plus once"]
@@ -40,6 +40,19 @@ def run(tier):
             keep = os.path.join(vlib.REPLAYS, "C13-trace-%s.ndjson" % fam)
             shutil.copy(trace, keep)
             ck.violation("PaintTrace rejected a painted glyph: %s" % info.get("rejected", "")[:1500], {"kind": "paint-trace", "trace": keep})
+    # V on the repository's COLRv1 fonts: the paint graph is extracted from the table (shared tables = one node) and
+    # every colour glyph is painted with and without a client-side cache answer
+    trace = os.path.join(wd, "corpus.ndjson")
+    res = vlib.run_harness("fv-write", ["c13", "--corpus", "--out", trace], timeout=1500)
+    ck.add_harness("paint:corpus", res, traces=False)
+    ok, info = vlib.validate_trace(wd, "PaintTrace", trace, timeout=3000)
+    ck.cov["parts"]["validate:corpus"] = info
+    if ok:
+        ck.cov["traces_validated_against_impl"] += info.get("events", 0)
+    else:
+        keep = os.path.join(vlib.REPLAYS, "C13-trace-corpus.ndjson")
+        shutil.copy(trace, keep)
+        ck.violation("PaintTrace rejected a painted corpus glyph: %s" % info.get("rejected", "")[:1500], {"kind": "paint-trace", "trace": keep})
     return ck.finish()
 
 
